@@ -3,6 +3,7 @@ package main
 import (
 	"fmt"
 	"math/big"
+	"go/token"
 	"go/types"
 	"regexp"
 	"sort"
@@ -289,6 +290,27 @@ func (c *Check) SuccessSites(fn *ssa.Function, idx int, success string) []RetSit
 
 // Gate records the obligation "target is gated by any-of pats".
 func (c *Check) Gate(fa *FuncAnalysis, target ssa.Instruction, construct, desc string, pats ...LitPat) bool {
+	// `return f(x)`: where the target returns a call's own error result, "f returned nil" holds by definition whenever
+	// this return is a success — the same fact an `if err := f(x); err != nil { return err }; return nil` would put on the edge
+	if r, isRet := target.(*ssa.Return); isRet {
+		for _, v := range r.Results {
+			if !isErrorType(v.Type()) {
+				continue
+			}
+			t := c.p.T(v)
+			for _, a := range t.Alts() {
+				if ResultOf(a, -1) == nil {
+					continue
+				}
+				syn := Lit{&Term{Op: "isnil", Args: []*Term{a}, V: v}, true}
+				for _, pat := range pats {
+					if pat(syn) && len(t.Alts()) == 1 {
+						return c.Req(true, c.p.Name(fa.Fn), c.p.InstrPos(target), construct, desc, "")
+					}
+				}
+			}
+		}
+	}
 	ok, path := fa.Gated(target, pats...)
 	if c.Tier == "thorough" {
 		c.countPaths(fa, target, pats)
@@ -300,7 +322,87 @@ func (c *Check) Gate(fa *FuncAnalysis, target ssa.Instruction, construct, desc s
 	return c.Req(ok, c.p.Name(fa.Fn), c.p.InstrPos(target), construct, desc, "ungated path: "+fa.PathString(path))
 }
 
-func sameValue(a, b *Term) bool { return a != nil && b != nil && a.V != nil && a.V == b.V }
+func sameValue(a, b *Term) bool {
+	if a == nil || b == nil || a.V == nil || b.V == nil {
+		return false
+	}
+	if a.V == b.V {
+		return true
+	}
+	// two calls of the same stable getter on the same receiver (`node.Host()` evaluated twice) are the same value
+	ca, ok1 := a.V.(*ssa.Call)
+	cb, ok2 := b.V.(*ssa.Call)
+	if ok1 && ok2 && len(ca.Call.Args) == 1 && len(cb.Call.Args) == 1 {
+		fa, fb := ca.Call.StaticCallee(), cb.Call.StaticCallee()
+		if fa != nil && fa == fb && stableGetter(fa) && ca.Call.Args[0] == cb.Call.Args[0] {
+			return true
+		}
+	}
+	return false
+}
+
+var stableGetterCache = map[*ssa.Function]bool{}
+
+// stableGetter: a method whose body is `return recv.f` (possibly through a pointer) where no function of the module stores
+// to field f of that struct type except into a struct it has just allocated (constructors, composite literals).
+func stableGetter(fn *ssa.Function) bool {
+	if v, ok := stableGetterCache[fn]; ok {
+		return v
+	}
+	res := func() bool {
+		p := stableGlobalsProg
+		if p == nil || len(fn.Blocks) != 1 || fn.Signature.Recv() == nil || fn.Signature.Results().Len() != 1 {
+			return false
+		}
+		type fld struct {
+			t string
+			i int
+		}
+		var read []fld
+		for _, in := range fn.Blocks[0].Instrs {
+			switch x := in.(type) {
+			case *ssa.FieldAddr:
+				read = append(read, fld{x.X.Type().String(), x.Field})
+			case *ssa.Field:
+				read = append(read, fld{"*" + x.X.Type().String(), x.Field})
+			case *ssa.UnOp:
+				if x.Op != token.MUL {
+					return false
+				}
+			case *ssa.Return, *ssa.DebugRef:
+			default:
+				return false
+			}
+		}
+		if len(read) == 0 {
+			return false
+		}
+		for _, f := range p.ModFuncs {
+			for _, b := range f.Blocks {
+				for _, in := range b.Instrs {
+					st, ok := in.(*ssa.Store)
+					if !ok {
+						continue
+					}
+					fad, ok := st.Addr.(*ssa.FieldAddr)
+					if !ok {
+						continue
+					}
+					for _, r := range read {
+						if fad.Field == r.i && fad.X.Type().String() == r.t {
+							if _, fresh := fad.X.(*ssa.Alloc); !fresh {
+								return false
+							}
+						}
+					}
+				}
+			}
+		}
+		return true
+	}()
+	stableGetterCache[fn] = res
+	return res
+}
 
 // derivesOnly: every alternative of t satisfies pred.
 func derivesOnly(t *Term, pred func(*Term) bool) bool {
